@@ -1765,6 +1765,26 @@ func (c *BytecodeCompiler) isNestedInFinally() bool {
 	return false
 }
 
+// Close the upvalues of every scope that is left by a `return`
+// which first has to run `finally` blocks.
+// The blocks reuse the slots of the locals that go out of scope.
+func (c *BytecodeCompiler) leaveScopeOnReturnFinally(line int) {
+	outermostFinally := -1
+	for i, scope := range c.scopes {
+		if scope.typ == doFinallyBytecodeScopeType {
+			outermostFinally = i
+			break
+		}
+	}
+	if outermostFinally == -1 {
+		return
+	}
+
+	for i := len(c.scopes) - 1; i >= outermostFinally; i-- {
+		c.closeUpvaluesInScope(line, c.scopes[i])
+	}
+}
+
 func (c *BytecodeCompiler) registerCatch(from, to, jumpAddress int, finally bool) {
 	doCatchEntry := vm.NewCatchEntry(
 		from,
@@ -2043,6 +2063,9 @@ func (c *BytecodeCompiler) compileBreakExpressionNode(node *ast.BreakExpressionN
 		return
 	}
 
+	// the finally blocks reuse the slots of the locals that go out of scope here
+	c.leaveScopeOnBreak(location.StartPos.Line, labelName)
+
 	jumpOffsetId := c.emitLoadValue(value.Undefined, location)
 	c.offsetValueIds = append(c.offsetValueIds, jumpOffsetId)
 	c.addLoopJump(labelName, bytecodeBreakFinallyLoopJump, jumpOffsetId, location)
@@ -2102,6 +2125,9 @@ func (c *BytecodeCompiler) compileContinueExpressionNode(node *ast.ContinueExpre
 		c.addLoopJumpTo(loop, bytecodeContinueLoopJump, continueJumpOffset)
 		return
 	}
+
+	// the finally blocks reuse the slots of the locals that go out of scope here
+	c.leaveScopeOnContinue(location.StartPos.Line, labelName)
 
 	jumpOffsetId := c.emitLoadValue(value.Undefined, location)
 	c.offsetValueIds = append(c.offsetValueIds, jumpOffsetId)
@@ -8582,6 +8608,7 @@ func (c *BytecodeCompiler) emitReturnWithValue(location *position.Location, valu
 			c.compileNodeWithResult(value)
 		}
 		if c.isNestedInFinally() {
+			c.leaveScopeOnReturnFinally(location.EndPos.Line)
 			c.emit(location.EndPos.Line, bytecode.RETURN_FINALLY)
 		} else {
 			c.emit(location.EndPos.Line, bytecode.RETURN)
